@@ -37,6 +37,7 @@ package diodes
 //@   ensures [C10] cast(callarg(atomic.CompareAndSwapPointer, ncalls(atomic.CompareAndSwapPointer) - 1, 2), "*bucket").seq == callres(atomic.AddUint64, ncalls(atomic.AddUint64) - 1, 0) && cast(callarg(atomic.CompareAndSwapPointer, ncalls(atomic.CompareAndSwapPointer) - 1, 2), "*bucket").data == data
 //@   ensures [C11] callarg(atomic.CompareAndSwapPointer, ncalls(atomic.CompareAndSwapPointer) - 1, 1) != nil && cast(callarg(atomic.CompareAndSwapPointer, ncalls(atomic.CompareAndSwapPointer) - 1, 1), "*bucket").seq < 9223372036854775808 ==> cast(callarg(atomic.CompareAndSwapPointer, ncalls(atomic.CompareAndSwapPointer) - 1, 1), "*bucket").seq < cast(callarg(atomic.CompareAndSwapPointer, ncalls(atomic.CompareAndSwapPointer) - 1, 2), "*bucket").seq
 //@   ensures [C11] ncalls(atomic.AddUint64) == old(ncalls(atomic.AddUint64)) + 1
+//@   ensures [C10] ncalls(Alerter.Alert) == old(ncalls(Alerter.Alert))
 
 //@ func (*Poller).isDone(p) res
 //@   trusted
